@@ -25,3 +25,8 @@ func (v VerifSketch) RowsInto(dst *[4][]byte) {
 		dst[i] = []byte(v.s.rows[i])
 	}
 }
+
+// DoorElemNum / SetDoorElemNum: the doorkeeper's public element counter (restored together
+// with its bitset so that a restored state is exactly an observed one).
+func (v VerifTinyLFU) DoorElemNum() uint64     { return v.p.door.ElemNum }
+func (v VerifTinyLFU) SetDoorElemNum(n uint64) { v.p.door.ElemNum = n }
